@@ -46,6 +46,18 @@ class Events:
     def _role(self, name):
         return self.A.get(name)
 
+    def _sealers(self):
+        """paths of local functions that (transitively) call the checksum role: a buffer they return is a sealed header image"""
+        if not hasattr(self, '_sealer_paths'):
+            cs = self._role('checksum-role')
+            out = set()
+            if cs is not None:
+                for f in self.facts.fns:
+                    if f is not cs and cs in self.facts.reachable_fns([f]):
+                        out.add(f.path)
+            self._sealer_paths = out
+        return self._sealer_paths
+
     def _through_guard(self, fn, local, inner_ty):
         """is `local` (a reference) derived from DerefMut/Deref on a MutexGuard<inner_ty>?"""
         _, atoms = self.du(fn).slice_local(local)
@@ -80,7 +92,7 @@ class Events:
             cs = self._role('checksum-role')
             if cs is not None and len(t['args']) > 1:
                 _, atoms = self.du(fn).slice_operand(t['args'][1])
-                if any(a[0] == 'call' and a[2] == cs.path for a in atoms):
+                if any(a[0] == 'call' and (a[2] == cs.path or a[2] in self._sealers()) for a in atoms):
                     sub = 'H'
             evs.append(dict(ev='W', sub=sub, fallible=True, callee=sp))
         if path in G_PATHS and is_file_callee(c):
